@@ -45,6 +45,8 @@ func cmdRun(args []string) {
 	merge := fs.String("merge", "", "comma-separated functions to if-convert")
 	verbose := fs.Bool("v", false, "print every path")
 	absConv := fs.Bool("abstract-conv", false, "float<->int conversions and rounding as UFs")
+	stubs := fs.String("stubs", "", "callee=harnessFunc,...")
+	intLat := fs.Bool("int-lattice", false, "declare lattice inputs as Int in every query")
 	fs.Parse(args)
 
 	ov, err := buildOverlay(*repo, *verif)
@@ -67,6 +69,15 @@ func cmdRun(args []string) {
 	spec.Cfg.MaxPicks = *picks
 	spec.Cfg.AllocBudget = *alloc
 	spec.Cfg.AbstractConv = *absConv
+	spec.Cfg.IntLattice = *intLat
+	if *stubs != "" {
+		spec.Stubs = map[string]string{}
+		for _, kv := range strings.Split(*stubs, ",") {
+			if p := strings.SplitN(kv, "=", 2); len(p) == 2 {
+				spec.Stubs[p[0]] = p[1]
+			}
+		}
+	}
 	spec.Cfg.Merge = map[string]bool{}
 	for _, m := range strings.Split(*merge, ",") {
 		if m != "" {
